@@ -11,9 +11,10 @@ namespace Rpft.Compile
 open Rpft Function
 
 theorem rowPre_clean {P : Params} {X : SParams} (ok : P.Ok) {s₁ : St} (hF : X.F = []) (hm : MR P s₁) (r : Row)
-    (hid : ¬ Invented r.nodeUuid) (hrv : RV s₁) (hnm : X.nmAll = true ∨ (r.nodeUuid = [] ∧ r.nodeName = [])) :
+    (hid : ¬ Invented r.nodeUuid) (hrv : RV s₁) (hnm : X.nmAll = true ∨ (r.nodeUuid = [] ∧ r.nodeName = []))
+    (hnl : P.op = true → r.type ≠ "loose_exit".toList) :
     RowPre P X s₁ r :=
-  ⟨⟨fun e _ _ => by rw [hF]; simp, fun _ => hm⟩, fun d _ => by rw [hF]; simp, ok.hfix _ hid, hrv, hnm⟩
+  ⟨⟨fun e _ _ => by rw [hF]; simp, fun _ => hm⟩, fun d _ => by rw [hF]; simp, ok.hfix _ hid, hrv, hnm, hnl⟩
 
 /-- the rows of this scope (not those of nested parsers) give no node names / identifiers -/
 def Event.noNames : Event → Bool
@@ -25,27 +26,29 @@ def noNamesL (es : List Event) : Bool := es.all Event.noNames
 mutual
 theorem step_clean : ∀ e : Event, e.okIds = true → ∀ (P : Params) (X : SParams) (s₁ s₂ : St), P.Ok →
     Sim P X s₁ s₂ → X.F = [] → (X.nmAll = true ∨ e.noNames = true) → CL P s₁ → SB s₁ → RV s₁ →
+    (P.op = true → e.noLoose = true) →
     rwp (step e) (step e) s₁ s₂ (fun _ t₁ _ t₂ => Sim P X t₁ t₂ ∧ Eff P s₁ t₁)
   | .row r => by
-    intro hid P X s₁ s₂ ok h hF hnm hcl hsb hrv
+    intro hid P X s₁ s₂ ok h hF hnm hcl hsb hrv hnl
     unfold step
     have hid' : ¬ Invented r.nodeUuid := by simpa [Event.okIds] using hid
     have hnm' : X.nmAll = true ∨ (r.nodeUuid = [] ∧ r.nodeName = []) := by
       rcases hnm with hh | hh
       · exact .inl hh
       · right; simpa [Event.noNames] using hh
-    refine rwp_mono (parseRow_rel ok h r (rowPre_clean ok hF hcl.mr r hid' hrv hnm')) ?_
+    refine rwp_mono (parseRow_rel ok h r (rowPre_clean ok hF hcl.mr r hid' hrv hnm'
+      (fun hop => noLoose_row (hnl hop)))) ?_
     intro _ t₁ _ t₂ ⟨ht, _, hf, _⟩
     exact ⟨ht, hf⟩
   | .openGroup edges starting => by
-    intro _ P X s₁ s₂ ok h hF _ hcl hsb hrv
+    intro _ P X s₁ s₂ ok h hF _ hcl hsb hrv _
     unfold step
     refine rwp_mono (openGroup_rel ok h edges starting
       (fun _ => ⟨fun e _ _ => by rw [hF]; simp, fun _ => hcl.mr⟩) hrv) ?_
     intro _ t₁ _ t₂ ⟨ht, _, _, hf, _⟩
     exact ⟨ht, hf⟩
   | .closeGroup rowId => by
-    intro _ P X s₁ s₂ ok h hF _ hcl hsb hrv
+    intro _ P X s₁ s₂ ok h hF _ hcl hsb hrv _
     unfold step
     refine rwp_mono (closeGroup_rel ok h rowId ?_ (fun b hb => hsb.lt hb)) ?_
     · intro b c rest hst htb
@@ -54,22 +57,25 @@ theorem step_clean : ∀ e : Event, e.okIds = true → ∀ (P : Params) (X : SPa
       have := hm b (by rw [hst]; rfl) (hcl.2 b (by rw [hst]; simp))
       exact ⟨ht, fun _ => this.1, fun _ => this.2 hcl, hsb', hrv', hhk⟩
   | .insert r body => by
-    intro hid P X s₁ s₂ ok h hF _ hcl hsb hrv
-    have hb : BodyRel body := fun P' X' u₁ u₂ ok' hu hF' hall hcl' hsb' hrv' =>
-      steps_clean body (by simpa [Event.okIds] using hid) P' X' u₁ u₂ ok' hu hF' (.inl hall) hcl' hsb' hrv'
-    refine rwp_mono (insert_rel ok h r body hb ⟨fun e _ _ => by rw [hF]; simp, fun _ => hcl.mr⟩ hsb) ?_
+    intro hid P X s₁ s₂ ok h hF _ hcl hsb hrv hnl
+    have hb : BodyRel body := fun P' X' u₁ u₂ ok' hu hF' hall hcl' hsb' hrv' hnl' =>
+      steps_clean body (by simpa [Event.okIds] using hid) P' X' u₁ u₂ ok' hu hF' (.inl hall) hcl' hsb' hrv' hnl'
+    refine rwp_mono (insert_rel ok h r body hb ⟨fun e _ _ => by rw [hF]; simp, fun _ => hcl.mr⟩ hsb
+      (fun hop => noLoose_insert (hnl hop))) ?_
     intro _ t₁ _ t₂ ⟨ht, _, _, hf⟩
     exact ⟨ht, hf⟩
 theorem steps_clean : ∀ es : List Event, okIdsL es = true → ∀ (P : Params) (X : SParams) (s₁ s₂ : St), P.Ok →
     Sim P X s₁ s₂ → X.F = [] → (X.nmAll = true ∨ noNamesL es = true) → CL P s₁ → SB s₁ → RV s₁ →
+    (P.op = true → noLooseL es = true) →
     rwp (steps es) (steps es) s₁ s₂ (fun _ t₁ _ t₂ => Sim P X t₁ t₂ ∧ Eff P s₁ t₁)
   | [] => by
-    intro _ P X s₁ s₂ ok h hF _ hcl hsb hrv
+    intro _ P X s₁ s₂ ok h hF _ hcl hsb hrv _
     unfold steps
     rw [rwp_pure]
     exact ⟨h, Eff.of_blkEq (BlkEq.refl _) rfl⟩
   | e :: es => by
-    intro hid P X s₁ s₂ ok h hF hnm hcl hsb hrv
+    intro hid P X s₁ s₂ ok h hF hnm hcl hsb hrv hnl
+    have hnl2 : P.op = true → e.noLoose = true ∧ noLooseL es = true := fun hop => noLooseL_cons (hnl hop)
     have hid2 : e.okIds = true ∧ okIdsL es = true := by simpa [okIdsL] using hid
     have hnm1 : X.nmAll = true ∨ e.noNames = true := by
       rcases hnm with hh | hh
@@ -81,15 +87,16 @@ theorem steps_clean : ∀ es : List Event, okIdsL es = true → ∀ (P : Params)
       · right; simp [noNamesL] at hh ⊢; exact hh.2
     unfold steps
     rw [rwp_bind]
-    refine rwp_mono (step_clean e hid2.1 P X s₁ s₂ ok h hF hnm1 hcl hsb hrv) ?_
+    refine rwp_mono (step_clean e hid2.1 P X s₁ s₂ ok h hF hnm1 hcl hsb hrv (fun hop => (hnl2 hop).1)) ?_
     intro _ u₁ _ u₂ ⟨hu, hf⟩
-    refine rwp_mono (steps_clean es hid2.2 P X u₁ u₂ ok hu hF hnm2 (hf.cl hcl) (hf.sb hsb) (hf.rv hrv)) ?_
+    refine rwp_mono (steps_clean es hid2.2 P X u₁ u₂ ok hu hF hnm2 (hf.cl hcl) (hf.sb hsb) (hf.rv hrv)
+      (fun hop => (hnl2 hop).2)) ?_
     intro _ t₁ _ t₂ ⟨ht, hf'⟩
     exact ⟨ht, hf.trans hf'⟩
 end
 
 theorem bodyRel_of_okIds (body : List Event) (h : okIdsL body = true) : BodyRel body :=
-  fun P X s₁ s₂ ok hs hF hall hcl hsb hrv => steps_clean body h P X s₁ s₂ ok hs hF (.inl hall) hcl hsb hrv
+  fun P X s₁ s₂ ok hs hF hall hcl hsb hrv hnl => steps_clean body h P X s₁ s₂ ok hs hF (.inl hall) hcl hsb hrv hnl
 
 /-! ### the outer scope after the block -/
 
@@ -142,15 +149,18 @@ structure TopInv (P : Params) (flag : Bool) (depth : Nat) (s : St) : Prop where
 
 theorem steps_top (ok : P.Ok) (hall : X.nmAll = true) : ∀ (es : List Event) (flag : Bool) (depth : Nat) (s₁ s₂ : St),
     avoids X.F flag depth es = true → okIdsL es = true → Sim P X s₁ s₂ → TopInv P flag depth s₁ →
+    (P.op = true → noLooseL es = true) →
     rwp (steps es) (steps es) s₁ s₂ (fun _ t₁ _ t₂ => Sim P X t₁ t₂) := by
   intro es
   induction es with
   | nil =>
-    intro flag depth s₁ s₂ _ _ h _
+    intro flag depth s₁ s₂ _ _ h _ _
     unfold steps
     rw [rwp_pure]; exact h
   | cons e es ih =>
-    intro flag depth s₁ s₂ hav hid h inv
+    intro flag depth s₁ s₂ hav hid h inv hnl
+    have hnl2 : P.op = true → e.noLoose = true ∧ noLooseL es = true := fun hop => noLooseL_cons (hnl hop)
+    have hnl3 : P.op = true → noLooseL es = true := fun hop => (hnl2 hop).2
     have hid2 : e.okIds = true ∧ okIdsL es = true := by simpa [okIdsL] using hid
     unfold steps
     rw [rwp_bind]
@@ -161,14 +171,15 @@ theorem steps_top (ok : P.Ok) (hall : X.nmAll = true) : ∀ (es : List Event) (f
       unfold step
       have hid' : ¬ Invented r.nodeUuid := by simpa [Event.okIds] using hid2.1
       have hpre : RowPre P X s₁ r := by
-        refine ⟨edgesPre_of_ok he inv.mr, ?_, ok.hfix _ hid', inv.rv, .inl hall⟩
+        refine ⟨edgesPre_of_ok he inv.mr, ?_, ok.hfix _ hid', inv.rv, .inl hall,
+          fun hop => noLoose_row (hnl2 hop).1⟩
         intro d hdm
         rw [List.all_eq_true] at hd
         have := hd d hdm
         simpa using this
       refine rwp_mono (parseRow_rel ok h r hpre) ?_
       intro _ u₁ _ u₂ ⟨hu, est, hf, hap⟩
-      refine ih _ depth u₁ u₂ hrest hid2.2 hu ⟨?_, by rw [est]; exact inv.dp, hf.sb inv.sb, hf.rv inv.rv⟩
+      refine ih _ depth u₁ u₂ hrest hid2.2 hu ⟨?_, by rw [est]; exact inv.dp, hf.sb inv.sb, hf.rv inv.rv⟩ hnl3
       intro hfl
       simp only [Bool.and_eq_false_iff, Bool.not_eq_false'] at hfl
       rcases hfl with hfl | hfl
@@ -184,7 +195,7 @@ theorem steps_top (ok : P.Ok) (hall : X.nmAll = true) : ∀ (es : List Event) (f
         · rw [hs] at he; cases he
         · exact edgesPre_of_ok he inv.mr
       · intro _ u₁ _ u₂ ⟨hu, est, hnt, hf, hm⟩
-        refine ih _ (depth + 1) u₁ u₂ hrest hid2.2 hu ⟨?_, ?_, hf.sb inv.sb, hf.rv inv.rv⟩
+        refine ih _ (depth + 1) u₁ u₂ hrest hid2.2 hu ⟨?_, ?_, hf.sb inv.sb, hf.rv inv.rv⟩ hnl3
         · intro hfl
           simp only [Bool.and_eq_false_iff] at hfl
           rcases hfl with hfl | hfl
@@ -208,7 +219,7 @@ theorem steps_top (ok : P.Ok) (hall : X.nmAll = true) : ∀ (es : List Event) (f
           · exfalso; apply hne; simpa using he
           · simpa using he
         · intro _ u₁ _ u₂ ⟨hu, est, hsb, hrv', _, _, _⟩
-          refine ih true 0 u₁ u₂ hrest hid2.2 hu ⟨fun hh => ?_, ?_, hsb inv.sb, hrv' inv.rv⟩
+          refine ih true 0 u₁ u₂ hrest hid2.2 hu ⟨fun hh => ?_, ?_, hsb inv.sb, hrv' inv.rv⟩ hnl3
           · cases hh
           · intro b hb; simp at hb
       | succ d =>
@@ -218,7 +229,7 @@ theorem steps_top (ok : P.Ok) (hall : X.nmAll = true) : ∀ (es : List Event) (f
           exact absurd htb (inv.dp b (by rw [hst]; simp))
         · intro _ u₁ _ u₂ ⟨hu, est, hsb, hrv', _, ⟨b, c, rest, hst⟩, hm⟩
           have hb := hm b (by rw [hst]; rfl) (inv.dp b (by rw [hst]; simp))
-          refine ih false d u₁ u₂ hav hid2.2 hu ⟨fun _ => hb.1, ?_, hsb inv.sb, hrv' inv.rv⟩
+          refine ih false d u₁ u₂ hav hid2.2 hu ⟨fun _ => hb.1, ?_, hsb inv.sb, hrv' inv.rv⟩ hnl3
           rw [est, hst]
           intro x hx
           apply inv.dp x
@@ -230,8 +241,81 @@ theorem steps_top (ok : P.Ok) (hall : X.nmAll = true) : ∀ (es : List Event) (f
       simp only [avoids, Bool.and_eq_true] at hav
       obtain ⟨he, hrest⟩ := hav
       have hb : BodyRel body := bodyRel_of_okIds body (by simpa [Event.okIds] using hid2.1)
-      refine rwp_mono (insert_rel ok h r body hb (edgesPre_of_ok he inv.mr) inv.sb) ?_
+      refine rwp_mono (insert_rel ok h r body hb (edgesPre_of_ok he inv.mr) inv.sb
+        (fun hop => noLoose_insert (hnl2 hop).1)) ?_
       intro _ u₁ _ u₂ ⟨hu, est, hm, hf⟩
-      exact ih false depth u₁ u₂ hrest hid2.2 hu ⟨fun _ => hm, by rw [est]; exact inv.dp, hf.sb inv.sb, hf.rv inv.rv⟩
+      exact ih false depth u₁ u₂ hrest hid2.2 hu ⟨fun _ => hm, by rw [est]; exact inv.dp, hf.sb inv.sb, hf.rv inv.rv⟩ hnl3
+
+/-! ### the outer scope after the block, open mode: nothing is tainted -/
+
+/-- the event names no forbidden row id (by an edge or as a `go_to` destination) -/
+def Event.avoidsF (F : List Str) : Event → Bool
+  | .row r => edgesOk F false r.edges && r.dests.all (fun d => !F.contains d)
+  | .openGroup edges starting => starting || edgesOk F false edges
+  | .closeGroup _ => true
+  | .insert r _ => edgesOk F false r.edges
+
+def avoidsOpen (F : List Str) (es : List Event) : Bool := es.all (Event.avoidsF F)
+
+theorem steps_open (ok : P.Ok) (hall : X.nmAll = true) (hT : ∀ j, ¬ P.T j) : ∀ (es : List Event) (s₁ s₂ : St),
+    avoidsOpen X.F es = true → okIdsL es = true → Sim P X s₁ s₂ → SB s₁ → RV s₁ →
+    (P.op = true → noLooseL es = true) →
+    rwp (steps es) (steps es) s₁ s₂ (fun _ t₁ _ t₂ => Sim P X t₁ t₂) := by
+  have hmr : ∀ s : St, MR P s := fun s x _ => hT x
+  intro es
+  induction es with
+  | nil =>
+    intro s₁ s₂ _ _ h _ _ _
+    unfold steps
+    rw [rwp_pure]; exact h
+  | cons e es ih =>
+    intro s₁ s₂ hav hid h hsb hrv hnl
+    have hnl2 : P.op = true → e.noLoose = true ∧ noLooseL es = true := fun hop => noLooseL_cons (hnl hop)
+    have hnl3 : P.op = true → noLooseL es = true := fun hop => (hnl2 hop).2
+    have hid2 : e.okIds = true ∧ okIdsL es = true := by simpa [okIdsL] using hid
+    have hav2 : e.avoidsF X.F = true ∧ avoidsOpen X.F es = true := by
+      simpa [avoidsOpen] using hav
+    unfold steps
+    rw [rwp_bind]
+    cases e with
+    | row r =>
+      have hav3 : edgesOk X.F false r.edges = true ∧ (r.dests.all (fun d => !X.F.contains d)) = true := by
+        simpa [Event.avoidsF] using hav2.1
+      unfold step
+      have hid' : ¬ Invented r.nodeUuid := by simpa [Event.okIds] using hid2.1
+      have hpre : RowPre P X s₁ r := by
+        refine ⟨edgesPre_of_ok hav3.1 (fun _ => hmr s₁), ?_, ok.hfix _ hid', hrv, .inl hall,
+          fun hop => noLoose_row (hnl2 hop).1⟩
+        intro d hdm
+        have hd := hav3.2
+        rw [List.all_eq_true] at hd
+        have := hd d hdm
+        simpa using this
+      refine rwp_mono (parseRow_rel ok h r hpre) ?_
+      intro _ u₁ _ u₂ ⟨hu, est, hf, hap⟩
+      exact ih u₁ u₂ hav2.2 hid2.2 hu (hf.sb hsb) (hf.rv hrv) hnl3
+    | openGroup edges starting =>
+      have hav3 : starting = true ∨ edgesOk X.F false edges = true := by
+        simpa [Event.avoidsF] using hav2.1
+      unfold step
+      refine rwp_mono (openGroup_rel ok h edges starting ?_ hrv) ?_
+      · intro hs
+        rcases hav3 with he | he
+        · rw [hs] at he; cases he
+        · exact edgesPre_of_ok he (fun _ => hmr s₁)
+      · intro _ u₁ _ u₂ ⟨hu, est, hnt, hf, hm⟩
+        exact ih u₁ u₂ hav2.2 hid2.2 hu (hf.sb hsb) (hf.rv hrv) hnl3
+    | closeGroup rowId =>
+      unfold step
+      refine rwp_mono (closeGroup_rel ok h rowId (fun b c rest _ htb => absurd htb (hT b)) (fun b hb => hsb.lt hb)) ?_
+      intro _ u₁ _ u₂ ⟨hu, est, hsb', hrv', _, _, _⟩
+      exact ih u₁ u₂ hav2.2 hid2.2 hu (hsb' hsb) (hrv' hrv) hnl3
+    | insert r body =>
+      have he : edgesOk X.F false r.edges = true := by simpa [Event.avoidsF] using hav2.1
+      have hb : BodyRel body := bodyRel_of_okIds body (by simpa [Event.okIds] using hid2.1)
+      refine rwp_mono (insert_rel ok h r body hb (edgesPre_of_ok he (fun _ => hmr s₁)) hsb
+        (fun hop => noLoose_insert (hnl2 hop).1)) ?_
+      intro _ u₁ _ u₂ ⟨hu, est, hm, hf⟩
+      exact ih u₁ u₂ hav2.2 hid2.2 hu (hf.sb hsb) (hf.rv hrv) hnl3
 
 end Rpft.Compile
